@@ -1,7 +1,11 @@
 use crate::engine::Registry;
 
 pub mod c01;
+pub mod c02;
+pub mod c05;
+pub mod c09;
 pub mod c15;
+pub mod find;
 #[cfg(lucid_suggest_verif)]
 pub mod c16;
 #[cfg(lucid_suggest_verif)]
@@ -11,7 +15,7 @@ pub mod c19;
 
 pub fn registry() -> Registry {
     #[allow(unused_mut)]
-    let mut props = vec![c01::def(), c15::def()];
+    let mut props = vec![c01::def(), c02::def(), c05::def(), c09::def(), c15::def(), find::def_c03(), find::def_c04(), find::def_c13(), find::def_c14()];
     #[cfg(lucid_suggest_verif)]
     {
         props.push(c16::def());
